@@ -700,6 +700,9 @@ int EGLPNUM_TYPENAME_ILLprice_build_pdevex_norms (
 	if (reinit == 0)
 	{
 		pdinfo->ninit = 0;
+		/* the caller builds when it finds no norms; a problem without a non-basic
+		 * column has an empty norm array and still a reference frame */
+		ILL_IFFREE (pdinfo->refframe);
 		pdinfo->norms = EGLPNUM_TYPENAME_EGlpNumAllocArray (lp->nnbasic);
 		ILL_SAFE_MALLOC (pdinfo->refframe, lp->ncols, int);
 	}
